@@ -46,18 +46,25 @@ def append_only_pred(case, out):
     return bad
 
 
+def _replica_preds(case, out):
+    """append-only stores + the crash-safety rules of C03 (a vote is recorded durably before it is sent, one vote
+    per view across incarnations): agreement across crashes and restarts rests on them"""
+    import c03
+    return append_only_pred(case, out) + c03.extra_pred(case, out)
+
+
 def run(rep):
     tier, rng = rep.tier, Rng(rep.seed)
     broken = []
     import rust2coq
-    translator, gen_files = rust2coq.step(["numbers", "justification"], ["theories/Properties/C02Gen.v"], broken)
+    translator, gen_files = rust2coq.step(rust2coq.REPLICA_STEP, rust2coq.REPLICA_PROPS, broken)
     files = prop_files() + gen_files
     po = common.proof_obligations(files)
     po["files"] = files
     if not po["ok"]:
         broken.append("Coq obligations of " + ",".join(files) + ": " + (po["log_tail"] or str(po["hygiene_problems"] or po["bad_axioms"])))
     R = c05.run_replica_cases(rep, "C01", {"rounds": 7 if tier == "quick" else 10, "crash": True, "extreme": False},
-                              40 if tier == "quick" else 800, rng, broken, extra_pred=append_only_pred)
+                              40 if tier == "quick" else 800, rng, broken, extra_pred=_replica_preds)
     sim_cov = None
     import sim_gen as SG
     S = SG.run_sim_cases(rep, "C01", {"prefix_ops": 100, "rounds": 8, "shard": 2}, 8 if tier == "quick" else 250, rng.fork(), broken)
